@@ -519,9 +519,30 @@ fn concat_parts(parts: Vec<Expr>, attr_ptr: &MySyntaxNodePtr) -> Expr {
     acc
 }
 
+/// The runtime helper that renders a primitive other than int32 and string (only int32 has a
+/// builtin `to_string` method).
+fn primitive_to_string_fn(ty: Option<&ast::TypeExpr>) -> Option<&'static str> {
+    match ty? {
+        ast::TypeExpr::TUnit => Some("unit_to_string"),
+        ast::TypeExpr::TBool => Some("bool_to_string"),
+        ast::TypeExpr::TInt8 => Some("int8_to_string"),
+        ast::TypeExpr::TInt16 => Some("int16_to_string"),
+        ast::TypeExpr::TInt64 => Some("int64_to_string"),
+        ast::TypeExpr::TUint8 => Some("uint8_to_string"),
+        ast::TypeExpr::TUint16 => Some("uint16_to_string"),
+        ast::TypeExpr::TUint32 => Some("uint32_to_string"),
+        ast::TypeExpr::TUint64 => Some("uint64_to_string"),
+        ast::TypeExpr::TFloat32 => Some("float32_to_string"),
+        ast::TypeExpr::TFloat64 => Some("float64_to_string"),
+        _ => None,
+    }
+}
+
 fn call_to_string(value: Expr, ty: Option<&ast::TypeExpr>, attr_ptr: &MySyntaxNodePtr) -> Expr {
     if matches!(ty, Some(ast::TypeExpr::TString)) {
         value
+    } else if let Some(helper) = primitive_to_string_fn(ty) {
+        call_function(helper, vec![value], attr_ptr)
     } else {
         Expr::ECall {
             func: Box::new(Expr::EField {
@@ -547,14 +568,14 @@ fn call_to_json(value: Expr, ty: Option<&ast::TypeExpr>, attr_ptr: &MySyntaxNode
         // Numbers can be serialized directly via to_string
         Some(ast::TypeExpr::TInt8)
         | Some(ast::TypeExpr::TInt16)
-        | Some(ast::TypeExpr::TInt32)
         | Some(ast::TypeExpr::TInt64)
         | Some(ast::TypeExpr::TUint8)
         | Some(ast::TypeExpr::TUint16)
         | Some(ast::TypeExpr::TUint32)
         | Some(ast::TypeExpr::TUint64)
         | Some(ast::TypeExpr::TFloat32)
-        | Some(ast::TypeExpr::TFloat64) => Expr::ECall {
+        | Some(ast::TypeExpr::TFloat64) => call_to_string(value, ty, attr_ptr),
+        Some(ast::TypeExpr::TInt32) => Expr::ECall {
             func: Box::new(Expr::EField {
                 expr: Box::new(value),
                 field: AstIdent::new(TO_STRING_FN),
